@@ -34,6 +34,7 @@ import (
 	"testing/synctest"
 	"time"
 
+	"github.com/modelcontextprotocol/go-sdk/internal/jsonrpc2"
 	"github.com/modelcontextprotocol/go-sdk/jsonrpc"
 )
 
@@ -292,6 +293,22 @@ func (h *ordH) log(what string, id int) {
 	h.mu.Lock()
 	h.evs = append(h.evs, ordEv{what, id, time.Since(h.t0).Milliseconds()})
 	h.mu.Unlock()
+}
+
+// ordHookEnq makes the jsonrpc2 connections of the case report every request that enters a handler queue
+// (site A2 of acceptRequest, the instant before it is appended; one reader goroutine per connection, so the
+// reports of one connection are in queue order): event `enq`.  The hook is global: one case at a time.
+func (h *ordH) hookEnq() {
+	jsonrpc2.VerifHook = func(_ *jsonrpc2.Connection, site string, subj any) {
+		if site != "A2" {
+			return
+		}
+		if req, ok := subj.(*jsonrpc2.Request); ok && req != nil {
+			if tag := ordRawTag(req.Params); tag >= 0 && tag < len(h.c.msgs) {
+				h.log("enq", tag)
+			}
+		}
+	}
 }
 
 func ordCtx(id int) context.Context { return context.WithValue(context.Background(), ordTagKey{}, id) }
@@ -676,6 +693,8 @@ func ordRunCase(t *testing.T, out *verifOut, id string, c *ordCase) {
 	defer flush()
 	synctest.Test(t, func(t *testing.T) {
 		h := &ordH{t0: time.Now(), c: c, carrier: -1, mainTag: 0, cbres: map[int]string{}}
+		h.hookEnq()
+		defer func() { jsonrpc2.VerifHook = nil }()
 		status := "ok"
 		defer func() {
 			if r := recover(); r != nil {
@@ -886,7 +905,7 @@ func ordRunCase(t *testing.T, out *verifOut, id string, c *ordCase) {
 			if v, ok := per[i]["err"]; ok {
 				ret, e = v, "1"
 			}
-			obs := fmt.Sprintf("snd=%s ret=%s err=%s beg=%s fin=%s n=%d", get(i, "snd"), ret, e, get(i, "beg"), get(i, "fin"), cnt[i])
+			obs := fmt.Sprintf("snd=%s ret=%s err=%s beg=%s fin=%s n=%d enq=%s", get(i, "snd"), ret, e, get(i, "beg"), get(i, "fin"), cnt[i], get(i, "enq"))
 			tags := []string{"kind=" + string(m.kind), m.dir + ":" + m.meth, "tr=" + c.tr + "/" + string(m.kind)}
 			if e == "1" {
 				tags = append(tags, "senderr")
@@ -896,6 +915,9 @@ func ordRunCase(t *testing.T, out *verifOut, id string, c *ordCase) {
 			}
 			if m.cb {
 				tags = append(tags, "callback", h.cbres[i])
+			}
+			if m.b != 0 && m.kind != 'n' {
+				tags = append(tags, "body-call")
 			}
 			if m.b != 0 {
 				n := 0
@@ -1105,6 +1127,26 @@ func ordGen(rng *rand.Rand, tr string, maxLen int) *ordCase {
 	return c
 }
 
+// ordBodyCase: handshake, one body of n members (bit k of mask set: member k is a call), then a single
+// notification and a single call.  Handler durations differ so that a re-ordering shows in the handler order too.
+func ordBodyCase(tr string, n, mask, salt int) *ordCase {
+	c := &ordCase{tr: tr, dir: "c2s", pv: []string{protocolVersion20250326, protocolVersion20241105}[salt%2]}
+	c.msgs = append(c.msgs, ordMsg{dir: "c2s", kind: 'i', meth: "initialize", d: 1}, ordMsg{dir: "c2s", kind: 'n', meth: "initialized", d: salt % 3})
+	if salt%4 == 3 {
+		c.msgs = append(c.msgs, ordMsg{dir: "c2s", kind: 'n', meth: "prog", d: 1}) // an odd number of messages: rh sends no version header
+	}
+	calls := []string{"tool", "ping", "ltools", "lres"}
+	for k := 0; k < n; k++ {
+		m := ordMsg{dir: "c2s", kind: 'n', meth: []string{"prog", "roots"}[(k+salt)%2], d: 2 + (k+salt)%4, b: 1}
+		if mask&(1<<k) != 0 {
+			m = ordMsg{dir: "c2s", kind: 'c', meth: calls[(k+salt)%4], d: 1 + (k+salt)%3, b: 1}
+		}
+		c.msgs = append(c.msgs, m)
+	}
+	c.msgs = append(c.msgs, ordMsg{dir: "c2s", kind: 'n', meth: "prog", d: 1}, ordMsg{dir: "c2s", kind: 'c', meth: "tool", d: 1})
+	return c
+}
+
 var ordTransports = []string{"mem", "io", "sse", "sh", "shj", "she", "shje", "sl", "slj", "rw", "rwj", "rh"}
 
 func ordParse(lines []string) (*ordCase, bool) {
@@ -1202,6 +1244,17 @@ func TestVerifOrder(t *testing.T) {
 		for _, e := range ents {
 			if strings.HasSuffix(e.Name(), ".ops") {
 				replay(p+"/"+e.Name(), "corpus-"+strings.TrimSuffix(e.Name(), ".ops"))
+			}
+		}
+	}
+	// exhaustive: a raw streamable peer POSTs ONE batch of every composition of calls and notifications up to four
+	// members (pre-2025-06-18 batching; Mcp-Protocol-Version absent or present on rh), then a notification and a call
+	ci := 0
+	for _, tr := range []string{"rw", "rwj", "rh"} {
+		for n := 1; n <= 4; n++ {
+			for mask := 0; mask < 1<<n; mask++ {
+				ordRunCase(t, out, fmt.Sprintf("x%d", ci), ordBodyCase(tr, n, mask, ci))
+				ci++
 			}
 		}
 	}
